@@ -58,15 +58,20 @@ class Worker:
         self.info = json.loads(line)
 
     def run(self, job):
+        # the envelope that reaches the scenario child is a function of (engine, func, doc) only: the
+        # same document always yields the same bytes and therefore the same child, whoever asks
+        wire = {"engine": job["engine"], "func": job["func"], "doc": job["doc"], "wall_cap": 180 if job.get("func") in ("execute", "trace") else job.get("wall_cap", 180)}
         try:
-            self.p.stdin.write(json.dumps(job) + "\n")
+            self.p.stdin.write(json.dumps(wire, sort_keys=True) + "\n")
             self.p.stdin.flush()
             line = self.p.stdout.readline()
         except (BrokenPipeError, OSError):
             line = ""
         if not line:
             return {"id": job.get("id"), "result": {"harness_error": "zygote died"}}
-        return json.loads(line)
+        rep = json.loads(line)
+        rep["id"] = job.get("id")
+        return rep
 
     def close(self):
         try:
